@@ -413,14 +413,50 @@ fn c18_random<D: Dec>(run: &mut Run, cases: u32) {
     }
 }
 
+fn pump_op_patterns(set2: bool) -> Vec<Vec<Op>> {
+    let fr = |b: u8| -> Vec<Op> { let w = frame::encode(b); (0..11).map(|i| Op::Bit((w >> i) & 1 != 0)).collect() };
+    let a = if set2 { 0x1C } else { 0x1E };
+    let mut v: Vec<Vec<Op>> = vec![
+        vec![Op::Byte(a)],
+        fr(a),
+        vec![Op::Word(frame::encode(a))],
+        vec![Op::Word(frame::encode(a) ^ 0x200), Op::Word(frame::encode(a))],
+        { let mut x = fr(0xE0); x.extend(bits_ops(0b101, 3)); x.push(Op::Clear); x.extend(fr(if set2 { 0x75 } else { 0x48 })); x },
+        vec![Op::Event(KeyCode::LShift, KeyState::Down), Op::Byte(0xE0), Op::Clear, Op::Event(KeyCode::A, KeyState::Down), Op::Byte(if set2 { 0x75 } else { 0x48 }), Op::Event(KeyCode::LShift, KeyState::Up)],
+        vec![Op::Byte(0xFF), Op::Byte(a)],
+        vec![Op::SetCtrl(HandleControl::Ignore), Op::Event(KeyCode::LControl, KeyState::Down), Op::Event(KeyCode::A, KeyState::Down), Op::SetCtrl(HandleControl::MapLettersToUnicode), Op::Event(KeyCode::A, KeyState::Down), Op::Event(KeyCode::LControl, KeyState::Up)],
+        vec![Op::Bit(true)],
+        vec![Op::Clear],
+    ];
+    for p in crate::checks::sc::pump_patterns(set2).into_iter().take(8) {
+        v.push(p.into_iter().map(Op::Byte).collect());
+    }
+    v
+}
+
+fn c18_pumping<D: Dec>(run: &mut Run) {
+    let mut n = 0u64;
+    let pats = pump_op_patterns(D::IS_SET2);
+    for pat in &pats {
+        let reps = 70_000 / pat.len() + 1;
+        let ops: Vec<Op> = pat.iter().copied().cycle().take(reps * pat.len()).collect();
+        n += ops.len() as u64;
+        c18_eval::<D>(run, &ops, HandleControl::MapLettersToUnicode);
+        run.nontrivial_fp(fp(&("pump", D::NAME, ops_text(pat))));
+    }
+    run.part(&format!("{}_pumping", D::NAME), json!({"ops_fed": n, "patterns": pats.iter().map(|p| ops_text(p)).collect::<Vec<_>>()}));
+}
+
 pub fn c18(run: &mut Run) {
-    run.rule = "Differential against three separately owned stages (Ps2Decoder, ScancodeSetN, EventDecoder) wired exactly as the property says; every return value is compared, and after each sequence both sides receive a probe suffix that fingerprints every stage behaviourally (press of A through an argument-encoding layout = modifiers + mode; byte 0x14/0x1D = a different event in every scancode context; two valid frames bit by bit = pending count and register contents). Exhaustive per-operation slices over the fed stage with the other stages in non-initial states: add_bit (2047 frame states x 2 bits x 6/3 scancode contexts x 8 modifier states), add_word (2048 words x contexts x 8 x 3 frame states), add_byte (256 x contexts x 64 frame states x 8), process_keyevent (124 x 3 x 64 frame states x contexts x 2), clear / set_ctrl_handling (2047 x contexts x 8 x 3). Random: interleavings of all six entry points with line noise (corrupted frames, partial frames + clear(), raw words), shrunk by proptest. Non-trivial slice = another stage in a non-initial state (distinct by construction); non-trivial sequence = mixes >= 2 entry points and contains a rejected frame or a clear() with pending bits while a scancode prefix is pending (distinct by op string).".into();
+    run.rule = "Differential against three separately owned stages (Ps2Decoder, ScancodeSetN, EventDecoder) wired exactly as the property says; every return value is compared, and after each sequence both sides receive a probe suffix that fingerprints every stage behaviourally (press of A through an argument-encoding layout = modifiers + mode; byte 0x14/0x1D = a different event in every scancode context; two valid frames bit by bit = pending count and register contents). Exhaustive per-operation slices over the fed stage with the other stages in non-initial states: add_bit (2047 frame states x 2 bits x 6/3 scancode contexts x 8 modifier states), add_word (2048 words x contexts x 8 x 3 frame states), add_byte (256 x contexts x 64 frame states x 8), process_keyevent (124 x 3 x 64 frame states x contexts x 2), clear / set_ctrl_handling (2047 x contexts x 8 x 3). Pumping: typical operation patterns repeated for >= 70,000 operations. Random: interleavings of all six entry points with line noise (corrupted frames, partial frames + clear(), raw words), shrunk by proptest. Non-trivial slice = another stage in a non-initial state (distinct by construction); non-trivial sequence = mixes >= 2 entry points and contains a rejected frame or a clear() with pending bits while a scancode prefix is pending (distinct by op string).".into();
     run.assumptions = vec![
         "the three stage types are used as their own reference: this is the relation the property states; what each stage does alone is C01-C07/C04/C14's business".into(),
         "words with bits above bit 10 are excluded (outside add_word's documented precondition)".into(),
     ];
     c18_slices::<ScancodeSet2>(run);
     c18_slices::<ScancodeSet1>(run);
+    c18_pumping::<ScancodeSet2>(run);
+    c18_pumping::<ScancodeSet1>(run);
     run.exhaustive = true;
     let n = run.tier.pick(5_000u32, 500_000u32);
     c18_random::<ScancodeSet2>(run, n);
@@ -581,7 +617,7 @@ fn c08_random<D: Dec>(run: &mut Run, cases: u32) {
 }
 
 pub fn c08(run: &mut Run) {
-    run.rule = "Everything is built with overflow checks and debug assertions on and every call runs under catch_unwind; the oracle is 'the call returns'. Exhaustive: every byte in every reachable state of both scancode decoders (extracted graph; plus all 2-byte streams through Keyboard::add_byte, hook-free); every bit in every reachable frame state (2047 x 2) with clear() before/after; all 65,536 u16 words to Ps2Decoder::add_word and to Keyboard::add_word in every scancode context of both sets; every key event (124 x 3) in every one of the 1024 event-decoder states for each of the 10 layouts behind AnyLayout; 124 keys x 512 modifier records x 2 modes on 30 layout objects; the five Modifiers predicates on 512 records. Random: API operation sequences (bits, words incl. bits above bit 10, bytes, events, clear, set_ctrl_handling) on Keyboard<AnyLayout, Set1/Set2>. Non-trivial = input reaching a non-initial state of the component, a word with bits >= 11 set, or an undefined scancode; exhaustive cases are distinct by construction.".into();
+    run.rule = "Everything is built with overflow checks and debug assertions on and every call runs under catch_unwind; the oracle is 'the call returns'. Exhaustive: every byte in every reachable state of both scancode decoders (extracted graph; plus all 2-byte streams through Keyboard::add_byte, hook-free); every bit in every reachable frame state (2047 x 2) with clear() before/after; all 65,536 u16 words to Ps2Decoder::add_word and to Keyboard::add_word in every scancode context of both sets; every key event (124 x 3) in every one of the 1024 event-decoder states for each of the 10 layouts behind AnyLayout; 124 keys x 512 modifier records x 2 modes on 30 layout objects; the five Modifiers predicates on 512 records. Pumping: operation patterns repeated for >= 70,000 operations (thorough: 2^32 + 2 calls of each basic operation, for counters that only overflow late). Random: API operation sequences (bits, words incl. bits above bit 10, bytes, events, clear, set_ctrl_handling) on Keyboard<AnyLayout, Set1/Set2>. Non-trivial = input reaching a non-initial state of the component, a word with bits >= 11 set, or an undefined scancode; exhaustive cases are distinct by construction.".into();
     run.assumptions = vec!["a panic is the only failure mode looked for here (the crate is 100% safe Rust, no allocation, no recursion); what the calls return is the other properties' business".into()];
     c08_graph::<ScancodeSet2>(run);
     c08_graph::<ScancodeSet1>(run);
@@ -712,6 +748,43 @@ pub fn c08(run: &mut Run) {
     }
     run.eval(512 * 5);
     run.exhaustive = true;
+
+    // pumping: counters that only overflow after very many calls. Quick: every pattern for
+    // >= 70,000 operations (u8 and u16 counters). Thorough: 2^32 + 2 calls of each basic
+    // operation (u32 counters), one thread per operation.
+    let mut n = 0u64;
+    for set2 in [true, false] {
+        for pat in pump_op_patterns(set2) {
+            let reps = 70_000 / pat.len() + 1;
+            let ops: Vec<Op> = pat.iter().copied().cycle().take(reps * pat.len()).collect();
+            n += ops.len() as u64;
+            if set2 { c08_eval_ops::<ScancodeSet2>(run, L_US, &ops) } else { c08_eval_ops::<ScancodeSet1>(run, L_DE, &ops) }
+        }
+    }
+    run.part("pumping", json!({"ops_fed": n}));
+    if run.tier == crate::report::Tier::Thorough {
+        const N: u64 = (1u64 << 32) + 2;
+        let jobs: Vec<(&str, Box<dyn Fn() + Send + Sync>)> = vec![
+            ("Ps2Decoder::add_bit(valid frames) x 2^32", Box::new(|| { let mut d = Ps2Decoder::new(); let w = frame::encode(0x1C); let mut i = 0u64; while i < N { let _ = d.add_bit((w >> (i % 11)) & 1 != 0); i += 1; } })),
+            ("Keyboard<Set2>::add_byte(1C) x 2^32", Box::new(|| { let mut k = Keyboard::new(ScancodeSet2::new(), Us104Key, HandleControl::Ignore); let mut i = 0u64; while i < N { let _ = k.add_byte(0x1C); i += 1; } })),
+            ("Keyboard<Set2>::add_byte(FF) x 2^32", Box::new(|| { let mut k = Keyboard::new(ScancodeSet2::new(), Us104Key, HandleControl::Ignore); let mut i = 0u64; while i < N { let _ = k.add_byte(0xFF); i += 1; } })),
+            ("Keyboard<Set1>::add_byte(1E) x 2^32", Box::new(|| { let mut k = Keyboard::new(ScancodeSet1::new(), Us104Key, HandleControl::Ignore); let mut i = 0u64; while i < N { let _ = k.add_byte(0x1E); i += 1; } })),
+            ("Keyboard<Set1>::add_byte(7F) x 2^32", Box::new(|| { let mut k = Keyboard::new(ScancodeSet1::new(), Us104Key, HandleControl::Ignore); let mut i = 0u64; while i < N { let _ = k.add_byte(0x7F); i += 1; } })),
+            ("Keyboard::process_keyevent(A Down) x 2^32", Box::new(|| { let mut k = Keyboard::new(ScancodeSet2::new(), Us104Key, HandleControl::MapLettersToUnicode); let mut i = 0u64; while i < N { let _ = k.process_keyevent(KeyEvent::new(KeyCode::A, KeyState::Down)); i += 1; } })),
+            ("Keyboard::process_keyevent(LShift Down/Up) x 2^32", Box::new(|| { let mut k = Keyboard::new(ScancodeSet2::new(), Us104Key, HandleControl::MapLettersToUnicode); let mut i = 0u64; while i < N { let _ = k.process_keyevent(KeyEvent::new(KeyCode::LShift, if i & 1 == 0 { KeyState::Down } else { KeyState::Up })); i += 1; } })),
+            ("Keyboard<Set2>::add_word(valid 1C) x 2^32", Box::new(|| { let mut k = Keyboard::new(ScancodeSet2::new(), Us104Key, HandleControl::Ignore); let w = frame::encode(0x1C); let mut i = 0u64; while i < N { let _ = k.add_word(w); i += 1; } })),
+            ("Keyboard<Set2>::add_bit(parity-error frames) x 2^32", Box::new(|| { let mut k = Keyboard::new(ScancodeSet2::new(), Us104Key, HandleControl::Ignore); let w = frame::encode(0x1C) ^ 0x200; let mut i = 0u64; while i < N { let _ = k.add_bit((w >> (i % 11)) & 1 != 0); i += 1; } })),
+        ];
+        let res: Vec<(String, Option<String>)> = jobs.par_iter().map(|(name, f)| (name.to_string(), guard(|| f()).err())).collect();
+        for (name, e) in &res {
+            if let Some(m) = e {
+                c08_panic(run, "2^32-call pump", name.clone(), m, json!({"kind":"c08_pump","job":name}));
+            }
+        }
+        run.eval(N * res.len() as u64);
+        run.nontrivial_enum(res.len() as u64);
+        run.part("pumping_2^32", json!({"jobs": res.iter().map(|(n, e)| json!({"job": n, "panicked": e.is_some()})).collect::<Vec<_>>(), "calls_per_job": N}));
+    }
 
     let n = run.tier.pick(5_000u32, 300_000u32);
     c08_random::<ScancodeSet2>(run, n);
